@@ -4,6 +4,7 @@ import (
 	"fmt"
 	"go/constant"
 	"go/token"
+	"go/types"
 	"strings"
 
 	"golang.org/x/tools/go/ssa"
@@ -41,6 +42,7 @@ func runC17(c *Ctx) {
 	c17Units(c, add)
 	c17Data(c)
 	c17Downsample(c)
+	c17IterFresh(c)
 	c17Labeler(c)
 }
 
@@ -675,6 +677,89 @@ func c17RowBlank(c *Ctx, fn *ssa.Function) (bool, string) {
 		}
 	}
 	return true, ""
+}
+
+// c17IterFresh: lttb.Downsample keeps the batch of the previous iterator call while it reads the
+// next one (the triangle spans three buckets). The series iterator therefore hands out a slice
+// allocated in that call, never (a re-slice of) storage that outlives the call.
+func c17IterFresh(c *Ctx) {
+	const rule = "every batch the series iterator returns is backed by an array allocated in that very call (Downsample still holds the previous batch while it reads the next)"
+	iter := c.P.Func("lib/plot", "timeSeries.iter")
+	key := "iter-fresh:(*lib/plot.timeSeries).iter"
+	if iter == nil {
+		c.Undecided(key, rule, "timeSeries.iter not found")
+		return
+	}
+	cl := returnedClosure(iter)
+	if cl == nil {
+		c.Undecided(key, rule, "iter does not return a function literal", c.fnAt(iter))
+		return
+	}
+	c.Saw("function " + shortFn(cl))
+	var bad []ssa.Instruction
+	n := 0
+	var origin func(v ssa.Value, depth int, seen map[ssa.Value]bool) bool // true = provably allocated in this call
+	origin = func(v ssa.Value, depth int, seen map[ssa.Value]bool) bool {
+		if depth > 12 {
+			return false
+		}
+		if seen[v] {
+			return true // a cycle through the append loop adds nothing new
+		}
+		seen[v] = true
+		switch x := v.(type) {
+		case *ssa.Const:
+			return x.Value == nil // nil slice: append allocates
+		case *ssa.MakeSlice:
+			return x.Parent() == cl
+		case *ssa.Slice:
+			if al, isAl := x.X.(*ssa.Alloc); isAl {
+				return al.Parent() == cl // an array literal or local array of this call
+			}
+			return origin(x.X, depth+1, seen)
+		case *ssa.Phi:
+			for _, e := range x.Edges {
+				if !origin(e, depth+1, seen) {
+					return false
+				}
+			}
+			return true
+		case *ssa.Call:
+			if callName(&x.Call) == "builtin:append" {
+				return origin(x.Call.Args[0], depth+1, seen)
+			}
+			return false
+		case *ssa.UnOp:
+			if al, isAl := x.X.(*ssa.Alloc); isAl && x.Op == token.MUL && al.Parent() == cl {
+				for _, r := range refs(al) {
+					if st, isSt := r.(*ssa.Store); isSt && st.Addr == ssa.Value(al) && !origin(st.Val, depth+1, seen) {
+						return false
+					}
+				}
+				return true
+			}
+			return false
+		}
+		return false
+	}
+	eachInstr(cl, func(i ssa.Instruction) {
+		r, ok := i.(*ssa.Return)
+		if !ok || len(r.Results) == 0 {
+			return
+		}
+		if _, isSl := r.Results[0].Type().Underlying().(*types.Slice); !isSl {
+			return
+		}
+		n++
+		if !origin(r.Results[0], 0, map[ssa.Value]bool{}) {
+			bad = append(bad, r)
+		}
+	})
+	if n == 0 {
+		c.Undecided(key, rule, "the iterator returns no slice", c.fnAt(cl))
+		return
+	}
+	c.Check(len(bad) == 0, key, rule, "batches are allocated per call", "a batch may be backed by storage that outlives the call (a reused scratch array): Downsample's previous batch is overwritten while it is still read", c.atsOr(bad, cl)...)
 }
 
 func c17Downsample(c *Ctx) {
